@@ -74,9 +74,9 @@ CLAIMED = {
             "Every document of the C02 space (2 layouts + ladders), 9 escape kinds at every position of every string length <= 70 (key and value) and every accepted C08 line sequence: parse with copying, snapshot all read/marshal/serialize APIs, overwrite the input with 5 patterns: snapshot unchanged; no-copy parse of an intact buffer gives the same snapshot. Every history of <= 3 operations over {4 edits x 3 positions on original or clones, Clone into nil or into any existing object} on 3 seeds x 2 string modes: every object equals its own model after every step and after the input buffer is overwritten.",
             "Stream-delivered values are checked in C09.",
             "DESIGN.md 4.16"),
-    "C07": ("stateless model checking of the source-instrumented implementation under a controlled scheduler: all interleavings up to a preemption bound, and all interleavings with exact state-key pruning",
-            "The scratch copy of the package is rewritten (cmd/vinstr) so that go/chan/select/WaitGroup/atomic operations are scheduling points of vsched (one thread runs at a time; a second point after every receive lets a writer overtake a reader that already owns a slot). For 10 (thorough 11) documents above 8 KiB needing 6..40 index buffers (valid, stage-2 error in the first / last buffer, stage-1 error early / late, both, NDJSON with blank lines, tail without structurals, just above the threshold; aperiodic content so a slot reused too early changes the outcome) every interleaving of producer and consumer with <= 2 (3) preemptions is executed unpruned, and every interleaving outright with pruning on an exact state key. Outcome must equal the default schedule's, which is checked against the grammar model and reference tree; deadlock (no enabled thread), livelock (step horizon) and panics are violations.",
-            "Granularity = synchronisation operations; kernels between two points are atomic; plain-memory races / weak memory are not modelled (free-running -race pass in C20 supports data-race freedom). Layer B (TLA+ model + conformance) not built.",
+    "C07": ("stateless model checking of the source-instrumented implementation under a controlled scheduler (all interleavings up to a preemption bound, and all interleavings with exact state-key pruning) + TLA+ protocol model checked by TLC whose every transition is replayed on the implementation",
+            "Layer A: the scratch copy of the package is rewritten (cmd/vinstr) so that go/chan/select/WaitGroup/atomic operations are scheduling points of vsched (one thread runs at a time; a second point after every receive lets a writer overtake a reader that already owns a slot). For 10 (thorough 11) documents above 8 KiB needing 6..40 index buffers (valid, stage-2 error in the first / last buffer, stage-1 error early / late, both, NDJSON with blank lines, tail without structurals, just above the threshold; aperiodic content so a slot reused too early changes the outcome) every interleaving of producer and consumer with <= 2 (3) preemptions is executed unpruned, and every interleaving outright with pruning on an exact state key. Outcome must equal the default schedule's, which is checked against the grammar model and reference tree; deadlock, livelock, panics and a stage still running when the call returns are violations. Layer B: models/RingPipeline.tla (producer, consumer, FIFO channel, ring, optional consumer failure, at the scheduler's granularity) is checked by TLC for the live ring size and channel capacity and the buffer counts of four documents (invariants NoOverwriteBeforeConsumed, NoDeadlock; liveness BothTerminate); TLC's complete labelled state graph is read back and every one of its ~5000 transitions is replayed on the code by steering the scheduler along a shortest model path: at every step the enabled threads must equal the processes the model enables, and the outcome must equal the default schedule's. A TLC invariant violation for the live constants is reported as a violation.",
+            "Granularity = synchronisation operations; kernels between two points are atomic; plain-memory races / weak memory are not modelled (free-running -race pass in C20 supports data-race freedom). Layer B binds the model to the code on four documents; for longer documents the model's verdict holds provided the code keeps following the protocol.",
             "DESIGN.md 4.7"),
     "C09": ("stateless model checking of the source-instrumented ParseNDStream under a controlled scheduler: deviation-bounded DFS (no state merging) crossed with exhaustively enumerated reader fragmentations, reader faults, EOF-with-data answers and reuse decisions",
             "Per stream (8 quick / 9 thorough: 1-4 documents, blank lines leading/between/doubled/trailing, CRLF, no final newline, empty, white-space only, six one-line documents): every single reader cut x 4 (8) configurations of GOMAXPROCS {1,3}, result-channel capacity {0,2}, recycle all/none; every pair (thorough: triple) of cuts in the base configuration; a reader fault after every byte count with and without data (thorough: x every single cut); the last bytes returned together with io.EOF; mixed recycle masks; real 10 MiB constant. For each environment vector every schedule of consumer, forwarder, reader and chunk parsers with <= 2 (thorough 3) deviations from the deterministic default scheduler is executed (a deviation = any non-default scheduling or pool answer); the six-chunk all-recycled scenario with <= 3 deviations; the smallest streams additionally with every interleaving (unbounded, state-key pruning). Stream-model oracle: documents in order, exactly one io.EOF, close, nothing after an error; fault: prefix + reader's error + close; kept values unchanged at the end.",
